@@ -26,6 +26,7 @@ def build(H, tier, seed):
     A.vc_grade(H)
     A.vc_trivial_accessors(H)
     A.vc_new(H)
+    A.vc_new_graded_reordered(H)
     A.vc_asfullmv(H)
     A.vc_map_filter(H)
     A.vc_constructors(H)
